@@ -997,7 +997,8 @@ def run(chk):
         sany(m)
     lap('sany')
     # 1 design check
-    chk.add_tlc(model_check('ClientCache', 'MC_ClientCache_quick.cfg' if quick else 'MC_ClientCache_thorough.cfg', timeout=1100))
+    # one worker: TLCGet("level") in the depth bound is only exact (and the run deterministic) without parallel workers
+    chk.add_tlc(model_check('ClientCache', 'MC_ClientCache_quick.cfg' if quick else 'MC_ClientCache_thorough.cfg', workers=1, timeout=1100))
 
     lap('model_check')
     # 2 spec -> code
